@@ -223,11 +223,11 @@ func genHistory(r *rand.Rand, g *wsclient.Gen, seed int64) *history {
 		case x < 71:
 			h.Steps = append(h.Steps, wsclient.Step{Kind: "touch", PauseUS: pause(r)})
 		case x < 77:
-			h.Steps = append(h.Steps, boomSet([]int64{0, 1, 1, 2}[r.Intn(4)]))
+			h.Steps = append(h.Steps, boomSet([]int64{0, 1, 2, 3, 3, 4, 5}[r.Intn(7)]))
 		case x < 80: // stale-close motif: failing subscribe, unsubscribe, re-subscribe, back to back
 			id := pick()
 			delete(live, id)
-			h.Steps = append(h.Steps, boomSet(int64(1+r.Intn(2))))
+			h.Steps = append(h.Steps, boomSet(int64(1+r.Intn(wsclient.BoomShapes))))
 			h.Steps = append(h.Steps, wsclient.Step{Kind: "unsub", ID: id, Wait: true})
 			s1 := newSub(id, true)
 			s1.Wait, s1.PauseUS = false, 0
@@ -390,7 +390,7 @@ func TestCheck(t *testing.T) {
 	run := vlib.Start(t, "C17", "exploration")
 	defer run.Finish()
 	run.Rule("histories over one websocket connection (scripted JSONSocket, recording SubscriptionLogger, WithMaxSubscriptions 2-4, 0-9 pass-through middlewares): 10-35 steps of subscribe / unsubscribe / mutate / echo / url / malformed envelopes with ids from a pool of 3 shared by ALL message types (plus fresh ids), undecodable frames, " +
-		"writes and invalidate-everything steps, resolver failures (initial and on re-run, safe and unsafe; failing mutations), context cancellation, socket close at a random step (ReadJSON error) or through a failing WriteJSON, gate steps (a resolver of an in-flight run is held while an unsubscribe(+re-subscribe) / close / cancel / colliding mutate / subscribe lands), " +
+		"writes and invalidate-everything steps, resolver failures (initial and on re-run; plain, safe, and errors wrapping context.Canceled / DeadlineExceeded of a resolver-owned context; failing mutations), context cancellation, socket close at a random step (ReadJSON error) or through a failing WriteJSON, gate steps (a resolver of an in-flight run is held while an unsubscribe(+re-subscribe) / close / cancel / colliding mutate / subscribe lands), " +
 		"an unsubscribe-all / close sent a fraction of the write-then-read delay after a write that invalidates an idle subscription, a failing-subscribe+unsubscribe+re-subscribe motif, unsubscribe+subscribe played while a closeSubscription call is held at its entry, writes injected at hook points; every subscription query carries a unique tag that its resolvers log and a field that creates a reactive.Resource with a Cleanup counter. " +
 		"reactive.WriteThenReadDelay is 0 in 2/5 of the histories and 0.5-3 ms in the rest. Every history ends with socket close, three invalidate-everything settle rounds and a quiescence wait. 4 pinned histories first. Non-trivial = the history has an end-by-close, an id collision or a failure. Distinct = step-kind sequence + end kinds of the instances.")
 	run.Assume("a subscription instance is a logger Subscribe call inside the handle window of a subscribe message; it ends at the first of: logger Unsubscribe(id), read-enter after its unsubscribe message, ServeJSONSocket returned")
